@@ -105,6 +105,11 @@ def check_shape(case):
                     except IndexError as e:
                         raise Violation(f'get_cell{tuple(args)} on shape {dims} raised IndexError for an in-range '
                                         f'cell', expected='the row of that cell', observed=str(e))
+                    old = world.getCell(*args)
+                    if tuple(old['pos']) != tuple(row['pos']) or old['v'] != row['v'] or \
+                            Envs.discreteGridPosToID(x, y, world.width, z, world.height) != cid:
+                        raise Violation(f'deprecated spellings getCell / discreteGridPosToID disagree with get_cell / '
+                                        f'discrete_grid_pos_to_id at {(x, y, z)} on shape {dims}')
                     if tuple(row['pos']) != (x, y, z) or row['v'] != 100 * x + 10 * y + z:
                         raise Violation(f'get_cell{tuple(args)} returned another cell\'s row', expected=[x, y, z],
                                         observed=[list(row['pos']), int(row['v'])])
